@@ -5,14 +5,12 @@ from .cell import CellType
 def format_number(n, n_type):
     'Convert the given number to a string, the way QB used to do.'
     if n_type == CellType.SINGLE:
+        # seven significant digits, correctly rounded, in plain or
+        # exponent form
         n = ctypes.c_float(n).value
-        sn = str(n)
-        if '.' in sn and 'e' not in sn:
-            digits = len(sn) - 1
-            before_decimal = sn.index('.')
-            desired_total_digits = 7
-            n = round(n, ndigits=desired_total_digits-before_decimal)
-    s = str(n)
+        s = '%.7g' % n
+    else:
+        s = str(n)
     if s.endswith('.0'):
         s = s[:-2]
     if 'e' in s and n_type == CellType.DOUBLE:
